@@ -7,7 +7,7 @@
    that text by its own analysis.  A fair schedule is one that runs every handler to completion:
    `run .. = Some st /\ quiescentb h st = true`. *)
 From Coq Require Import ZArith List Bool.
-From Verif Require Import C18.Model C18.Proofs C18.ProofsRepaired C18.ProofsFaithful C18.ProofsWitness.
+From Verif Require Import C18.Model C18.Proofs C18.ProofsRepaired C18.ProofsFaithful C18.ProofsWitness C18.ProofsLock.
 Import ListNotations.
 Open Scope Z_scope.
 
@@ -85,3 +85,10 @@ Theorem C18_repaired_runs_witnesses :
   (exists st, run Repaired h_syntax [0; 0; 0; 0; 1; 1; 1]%nat = Some st /\ quiescentb h_syntax st = true).
 Proof. exact (conj repaired_runs_stale repaired_runs_syntax). Qed.
 Print Assumptions C18_repaired_runs_witnesses.
+
+(* T9  the modelled RwLock: never a writer and a reader at once, in either variant, on every
+       schedule prefix (so `lock_code` in the correspondence run is well defined) *)
+Theorem C18_lock_exclusion : forall vr h sch st,
+  run vr h sch = Some st -> writer st = None \/ readers st = [].
+Proof. exact lock_exclusion. Qed.
+Print Assumptions C18_lock_exclusion.
